@@ -144,7 +144,8 @@ impl RecoverRunner {
 
         // Update components.
         indexer.insert_batch(indices);
-        sequence.store(latest_sequence + 1, Ordering::Release);
+        // The tombstone log carries no checksum: a damaged page can yield any sequence, including `u64::MAX`.
+        sequence.store(latest_sequence.saturating_add(1), Ordering::Release);
         block_manager.init(&clean_blocks);
 
         let elapsed = now.elapsed();
